@@ -440,6 +440,113 @@ def g8(rep, config):
     rep.floor("pieces taken out of the index outside the collector (%s)" % config, m, 2)
 
 
+KIND_TABLES = ("stoObRegistered", "stoObNoInternalPtrs", "stoObAldorTracer", "stoObCTracer")
+
+
+def g9(rep, config):
+    """What the marker may skip is decided per object kind: `stoObNoInternalPtrs[kind]` says the objects of a kind hold no
+    pointers.  Registering a kind must affect that kind only.  The tables have one entry per kind number; a registration that
+    reduces the number first (masking it to the tag's width, a modulo) makes a user kind of 32 or more overwrite a built-in
+    kind: `StoNewObject(32, pointer-free)` then declares kind 0 -- every record, array and closure -- pointer-free and the next
+    collection frees everything reachable only through the heap.  Every store into a per-kind table of store.c is indexed by a
+    value that has not been through `&` or `%` (a plain parameter, field or loop variable)."""
+    f = common.extract("store.c", config, all_trees=True)
+    n = 0
+    for name, fn in sorted(f.funcs.items()):
+        if "body" not in fn or not fn.get("file", "").endswith("store.c"):
+            continue
+        reduced = set()          # locals that hold a masked value
+        for x in walk(fn["body"]):
+            tgt = rhs = None
+            if x["k"] == "BinaryOperator" and x["op"] == "=":
+                tgt, rhs = strip(x["c"][0]), x["c"][1]
+            elif x["k"] == "CompoundAssignOperator" and x["op"] in ("&=", "%="):
+                t = strip(x["c"][0])
+                if t is not None and t["k"] == "DeclRefExpr":
+                    reduced.add(t["n"])
+            elif x["k"] == "DeclStmt":
+                for d in x.get("decls", []):
+                    if d.get("init") is not None and any(y["k"] == "BinaryOperator" and y["op"] in ("&", "%") for y in walk(d["init"])):
+                        reduced.add(d["n"])
+            if tgt is not None and tgt["k"] == "DeclRefExpr" and rhs is not None and \
+                    any(y["k"] == "BinaryOperator" and y["op"] in ("&", "%") for y in walk(rhs)):
+                reduced.add(tgt["n"])
+        for x in walk(fn["body"]):
+            if x["k"] != "BinaryOperator" or x["op"] != "=":
+                continue
+            l = strip(x["c"][0])
+            if l is None or l["k"] != "ArraySubscriptExpr" or (strip(l["c"][0]) or {}).get("n") not in KIND_TABLES:
+                continue
+            n += 1
+            idx = l["c"][1]
+            bad = any(y["k"] == "BinaryOperator" and y["op"] in ("&", "%") for y in walk(idx)) or \
+                any(y["k"] == "DeclRefExpr" and y["n"] in reduced for y in walk(idx))
+            key = "kind-table-indexed-by-the-kind:%s:%s" % (name, strip(l["c"][0])["n"])
+            if not bad:
+                rep.ok("G9", key + ":" + config, nontrivial=False)
+            else:
+                rep.violation("G9", key, "store.c:%d (%s) [%s]" % (x["l"], name, config),
+                              "the per-kind table is written at an index that has been reduced (`%s`): registering a kind number "
+                              "beyond the reduced range overwrites the entry of a built-in kind (kind 32 lands on kind 0, the "
+                              "kind of every record, array and closure); if it is registered pointer-free the marker stops looking "
+                              "inside those objects and live data is freed at the next collection" % common.render(strip(idx))[:40])
+    rep.floor("stores into the per-kind tables (%s)" % config, n, 2)
+
+
+def g10(rep):
+    """The conservative marker looks at word-aligned words only.  A RawRecord is laid out at run time by fiRawRecordValues from
+    the sizes of its fields (fiSizeOfChar() = 1, fiSizeOfWord() = 8, ...): the offset stored for field i must be brought to the
+    field's own boundary before it is stored, otherwise a pointer field that follows a byte-sized field sits at offset 1 and
+    whatever it points to is freed by the next collection.  In the loop of fiRawRecordValues the value stored into result[i]
+    is, on every path, the running offset after an alignment step (an update of that variable involving % or &)."""
+    f = common.extract("foam_c.c", "runtime", trees=["fiRawRecordValues"], cfg=["fiRawRecordValues"])
+    fn = f.func("fiRawRecordValues")
+    cfg = common.CFG(fn)
+    stores = []
+    loops = [x for x in walk(fn["body"]) if x["k"] in ("ForStmt", "WhileStmt")]
+    if len(loops) != 1:
+        raise AnalysisBroken("fiRawRecordValues: expected one loop over the fields")
+    for x in walk(loops[0]):
+        if x["k"] == "BinaryOperator" and x["op"] == "=":
+            l = strip(x["c"][0])
+            if l is not None and l["k"] == "ArraySubscriptExpr" and const_value(l["c"][1]) is None:
+                r = strip(x["c"][1])
+                if r is not None and r["k"] == "DeclRefExpr":
+                    stores.append((x, r["n"]))
+    if len(stores) != 1:
+        raise AnalysisBroken("fiRawRecordValues: expected one store `result[i] = <running offset>` in the loop, found %d" % len(stores))
+    st, var = stores[0]
+
+    def aligns(e):
+        if e["k"] in ("BinaryOperator", "CompoundAssignOperator") and e["op"] in ("=", "+=", "&=", "-="):
+            l = strip(e["c"][0])
+            if l is not None and l["k"] == "DeclRefExpr" and l["n"] == var:
+                return any(y["k"] == "BinaryOperator" and y["op"] in ("%", "&") for y in walk(e["c"][1])) or e["op"] == "&=" or \
+                    any((y.get("mac") or "").startswith("ROUND_UP") for y in walk(e["c"][1]))
+        return False
+
+    # an alignment step precedes the store in the loop body (it may be conditional on "not aligned yet" / "alignment > 1")
+    body = loops[0]["c"][-1]
+    sts = body["c"] if body["k"] == "CompoundStmt" else [body]
+    p = True
+    for s_ in sts:
+        if s_ is None:
+            continue
+        if any(y is st for y in walk(s_)):
+            break
+        if any(aligns(y) for y in walk(s_)):
+            p = None
+    where = "foam_c.c:%d (fiRawRecordValues)" % st["l"]
+    if p is None:
+        rep.ok("G10", "raw-record-offsets-aligned", sample={"running offset": var})
+    else:
+        rep.violation("G10", "raw-record-offsets-aligned", where,
+                      "the offset of a raw-record field is the plain sum of the preceding field sizes: in RawRecord(tag: Character, "
+                      "body: PrimitiveArray ...) the pointer is stored at byte offset 1, the marker (which reads aligned words) never "
+                      "sees it, and the array is freed at the next collection -- the program's output then depends on when the "
+                      "collector runs")
+
+
 def run(tier, only=None):
     rep = common.Report("C09", tier, EXPLANATION)
     check_config(rep, "compiler", common.compiler_units())
@@ -450,9 +557,11 @@ def run(tier, only=None):
     for config in ("compiler", "runtime"):
         c10_store_tables.check_carving(rep, config, rule="G4")
     g5(rep)
+    g10(rep)
     for config in ("compiler", "runtime"):
         g6(rep, config)
         g7(rep, config)
         g8(rep, config)
+        g9(rep, config)
     rep.assumptions.append("setjmp stores the callee-saved registers in its buffer (the idiom the collector relies on)")
     return rep
